@@ -453,8 +453,35 @@ func (U *Universe) prelude() string {
 		}
 		b.WriteString("))))\n")
 	}
-	// records used inside Node/Err first
+	// records that do not mention Node/Err go first (Node and Err contain Span, Token ...);
+	// records of heap structs that hold nodes or errors come after those datatypes
+	var dependsOnSum func(si *StructInfo, seen map[string]bool) bool
+	dependsOnSum = func(si *StructInfo, seen map[string]bool) bool {
+		if seen[si.Name] {
+			return false
+		}
+		seen[si.Name] = true
+		for _, f := range si.Fields {
+			if f.Sort == "Node" || f.Sort == "Err" || f.Sort == "Seq_Node" || f.Sort == "Seq_Err" {
+				return true
+			}
+			if d, ok := U.byName[f.Sort]; ok && d.Sum == "" && dependsOnSum(d, seen) {
+				return true
+			}
+			if strings.HasPrefix(f.Sort, "Seq_") {
+				if d, ok := U.byName[strings.TrimPrefix(f.Sort, "Seq_")]; ok && d.Sum == "" && dependsOnSum(d, seen) {
+					return true
+				}
+			}
+		}
+		return false
+	}
+	var late []*StructInfo
 	for _, si := range recs {
+		if dependsOnSum(si, map[string]bool{}) {
+			late = append(late, si)
+			continue
+		}
 		emit(si)
 	}
 	// Node
@@ -478,6 +505,9 @@ func (U *Universe) prelude() string {
 		b.WriteString(")\n")
 	}
 	b.WriteString(")))\n")
+	for _, si := range late {
+		emit(si)
+	}
 	b.WriteString("; ---- sequences\n")
 	for _, s := range seqNames {
 		e := U.seqs[s]
